@@ -3,7 +3,7 @@ CONSTANTS
     BoolVals = {"True", "False"}
     IntVals = {"None", "0", "7"}
     StrVals = {"None", "", "x"}
-    NameVals = {"None", "md5", ""}
+    NameVals = {"None", "md5", "md5-dos2unix", "sha256", ""}
     ValueVals = {"None", "", "h", "h.dir"}
 INVARIANT Inv_Meta
 INVARIANT Inv_Hash
